@@ -4,12 +4,12 @@ CONSTANTS
   TocC <- TocShort
   VarAlpha <- AlphaEvolve
   BasicAlpha <- BasicOne
-  MaxFree = 3
+  MaxFree = 1
   MaxBasic = 1
   MaxUniform = 1
   Periods = {100}
   Statuses = {}
-  MaxOps = 6
+  MaxOps = 5
   MaxFaults = 0
   MaxData = 2
   MaxLate = 1
